@@ -1,13 +1,14 @@
 (* Properties/C18.v — C18: repeated authentication failures lock an address out for the ban period.
    Statements only; every proof is a single `exact`.  Model: Model/Lockout.v; current_variant = the code
-   after fixes/C18-unban-only-if-expired.diff and fixes/C18-ban-never-weakened.diff, pinned_variant = the
-   tree as found.  A system state is (shared state, list of threads); `runs V C s sched` executes the
+   after fixes/C18-unban-only-if-expired.diff, fixes/C18-ban-never-weakened.diff and
+   fixes/C18-anon-registration-keeps-failures.diff, pinned_variant = the tree as found.  A system state is (shared state, list of threads); `runs V C s sched` executes the
    schedule `sched` (a list of thread indices: ANY number of threads, ANY interleaving; clock threads
    advance time by arbitrary amounts, runner threads execute the goroutines spawned by IsBanned /
    IsAllowed in any order at any later point; every mutex-protected section is one step).
    `covers m ip dlo`: the record of ip in m lasts until the deadline dlo (None = for ever).
    `within t dlo`: t is not after the deadline. *)
 From TX Require Import Model.Lockout Proofs.Lockout Proofs.LockoutBudget Proofs.SideC18 Gen.C18.
+From TX Require Model.BucketMap Proofs.BucketMap.
 Open Scope Z_scope.
 
 (* (1) locked out: once a ban record for ip is in place — temporary until dl, or permanent (dlo = None) —
@@ -132,6 +133,32 @@ Theorem C18_default_thresholds_ok :
 Proof. exact default_thresholds_ok. Qed.
 Print Assumptions C18_default_thresholds_ok.
 
+(* (4b) bucket creation in RateLimiter.allow as its lock sections (RLock lookup | Lock re-check + create | Take on
+   the held bucket; Model/BucketMap.v): for ANY number of concurrent first requests of any addresses on an empty
+   limiter and EVERY schedule, no address ever has two buckets, every thread holds the mapped bucket of its key,
+   and the tokens admitted per address never exceed the burst (clock frozen: no refill) *)
+Theorem C18_one_bucket_per_address :
+  forall burst ls sched,
+  0 <= burst -> BucketMap.fresh ls ->
+  let s := fst (BucketMap.bruns true burst (Model.BucketMap.binit, ls) sched) in
+  (forall i j, (i < Model.BucketMap.next s)%nat -> (j < Model.BucketMap.next s)%nat ->
+               Model.BucketMap.hkey s i = Model.BucketMap.hkey s j -> i = j) /\
+  (forall k, Model.BucketMap.adm s k <= burst) /\
+  Forall (fun l => match l with Model.BucketMap.AHave k _ id => Model.BucketMap.bmap s k = Some id | _ => True end)
+         (snd (BucketMap.bruns true burst (Model.BucketMap.binit, ls) sched)).
+Proof. exact BucketMap.one_bucket_per_address. Qed.
+Print Assumptions C18_one_bucket_per_address.
+
+(* the variant without the re-check under the write lock is refuted: two first requests, two buckets, 2 > burst = 1 *)
+Theorem C18_no_recheck_refuted :
+  exists burst ls sched,
+    0 <= burst /\ BucketMap.fresh ls /\
+    let s := fst (BucketMap.bruns false burst (Model.BucketMap.binit, ls) sched) in
+    Model.BucketMap.next s = 2%nat /\ Model.BucketMap.hkey s 0 = Model.BucketMap.hkey s 1 /\
+    Model.BucketMap.adm s 7%N = 2 /\ burst = 1.
+Proof. exact BucketMap.no_recheck_refuted. Qed.
+Print Assumptions C18_no_recheck_refuted.
+
 (* (5) gate order of HandleHandshake: a handshake that finds the address blacklisted (gate 1) or banned
    (gate 2) ends there with that refusal, leaving the state untouched (no failure recorded, no token taken,
    the credential store is not consulted) *)
@@ -162,6 +189,23 @@ Theorem C18_pinned_ban_weakened_refuted :
     threads_lock ip s1 /\ covers (bans (fst s1)) ip None /\ is_banned (fst s2) ip = false.
 Proof. exact pinned_ban_weakened_refuted. Qed.
 Print Assumptions C18_pinned_ban_weakened_refuted.
+
+(* third defect of the pinned tree: an anonymous registration (no credential proven) cleared the failure
+   record — maxf = 2, clock stopped: failed authentication, registration, failed authentication, not banned *)
+Theorem C18_pinned_anon_registration_resets_refuted :
+  exists C ip threads sched,
+    let s2 := runs pinned_variant C (init_sh, threads) sched in
+    maxf C = 2 /\ now (fst s2) = 0 /\
+    nth_error (snd s2) 0 = Some (LProg PIdle [] [3; 4; 3; 0]%N) /\ is_banned (fst s2) ip = false.
+Proof. exact pinned_anon_registration_resets_refuted. Qed.
+Print Assumptions C18_pinned_anon_registration_resets_refuted.
+
+(* repaired code: the last step of a successful anonymous registration leaves the whole shared state (hence
+   the failure record counted by C18_window_count_exact) untouched *)
+Theorem C18_anon_registration_keeps_failures :
+  forall C ip s, continue current_variant C (PHsAuth ip HAnonOk) s = (PIdle, s, Some 4%N).
+Proof. exact anon_registration_keeps_failures. Qed.
+Print Assumptions C18_anon_registration_keeps_failures.
 
 (* non-vacuity: a state reached from the empty state by a real schedule (two failures of two different
    threads inside the window, maxf = 2) satisfies the hypotheses of (1) and (3) with five live threads *)
